@@ -49,7 +49,10 @@ def run(R):
     R.rule("C17.json", "Value::json_value maps each variant to the JSON value of the same kind without coercion, with no wildcard arm; "
                        "records are serialised by serde_json (preserve_order)")
     R.rule("C17.route", "FileExecutor::execute prints each Some(result_row) at most once per line and the final aggregate table once")
-    f = R.need_fn(PRINT)
+    f0 = R.need_fn(PRINT)
+    # print() with its own helpers (json_record, csv_header, is_lone_input_row, ...) inlined
+    f = PR.view(P, f0, keep=r"Printer(>)?::println$|^sqlgrep::model::|^sqlgrep::data_model::")
+    fa = PR.facts(f)
     pl = [c.bb for c in f.calls if re.search(PRINTLN, short(c.name)) or re.search(PRINTLN, short(c.decl))]
     # the row loop: the iterator loop of print() itself whose body prints (however the iteration is spelled: iter(), enumerate(), ...)
     nx = []
@@ -109,31 +112,33 @@ def run(R):
                     "a record is dropped or duplicated on some path" % (r1, r_pre, r_post), [f.loc(header)])
     # the `lone input column prints just the line` case: the println that prints a single value needs all three guards
     R.rule("C17.lone-input", "only a result whose single column is named `input`, in text format, is printed as the bare line")
-    eqs = [c for c in f.calls if re.search(r"String as core::cmp::PartialEq<&str>>::eq$|PartialEq<&B> for &A>::eq$|PartialEq<str>>::eq$", short(c.name))]
-    special = None
-    for c in eqs:
-        g2 = PR.bool_guard(f, c)
-        if g2:
-            inside = [b for b in inloop if PR.dominated_by_edge(f, b, g2[0], g2[1])]
-            if inside:
-                special = (c, g2, inside)
-    if special is None:
+    # the println that prints a bare value (no `name: ` prefix, no join): its argument is formatted from a single column value
+    lone = []
+    for c in f.calls:
+        if c.bb in inloop:
+            conds = set()
+            for a_, val in fa.binop_facts(c.bb):
+                one = 1 in (a_["l"].get("int"), a_["r"].get("int"))
+                if one and ((a_["op"] == "Eq" and val) or (a_["op"] == "Ne" and not val)):
+                    conds.add("len==1")
+            for call, val in fa.call_facts(c.bb):
+                sn = short(call.name)
+                if re.search(r"String as core::cmp::PartialEq<&str>>::eq$|PartialEq<&B> for &A>::eq$|PartialEq<str>>::eq$|PartialEq<&'a str>>::eq$", sn) and val is True:
+                    conds.add("named-input")
+                if re.search(r"String as core::cmp::PartialEq<&str>>::ne$|PartialEq<str>>::ne$", sn) and val is False:
+                    conds.add("named-input")
+                if "OutputFormat as core::cmp::PartialEq>::eq" in sn and val is True:
+                    conds.add("text-format")
+                if "OutputFormat as core::cmp::PartialEq>::ne" in sn and val is False:
+                    conds.add("text-format")
+            if "named-input" in conds or "len==1" in conds and "text-format" in conds:
+                lone.append((c, conds))
+    if not lone:
         R.violation("C17.lone-input", "print|no-special-case", "the `input`-only special case is gone or unrecognised", [f.loc()])
     else:
-        c, g2, inside = special
-        conds = set()
-        for b in inside:
-            for gsw, lab, tgt in F.guards_dominating(f, b):
-                info = F.switch_info(f, gsw)
-                if info and info[0] == "bool":
-                    pos, os_ = F.bool_edge_polarity(f, gsw, lab)
-                    for o in os_:
-                        if o.kind == "binop" and o.extra == "Eq" and pos and 1 in (o.place["l"].get("int"), o.place["r"].get("int")):
-                            conds.add("len==1")
-                        if o.kind == "call" and pos and "OutputFormat as core::cmp::PartialEq>::eq" in short(o.call.name):
-                            conds.add("text-format")
-                        if o.kind == "call" and pos and o.call is c:
-                            conds.add("named-input")
+        c, conds = lone[0]
+        if not fa.ok:
+            R.note("C17.lone-input: path facts unavailable")
         if conds >= {"len==1", "text-format", "named-input"}:
             R.ok("C17.lone-input", "print", "bare line only under columns.len() == 1 && columns[0] == \"input\" && format == Text", c.loc())
         else:
@@ -145,24 +150,14 @@ def run(R):
     r2 = count_range(f, none_t, set(f.exits()), set(after)) if none_t is not None else None
     sep_ok = r2 is not None and r2[0] == 0 and r2[1] <= 1
     if sep_ok and after:
-        # guards of the separator
+        # guards of the separator (path facts: nested ifs, `a && b`, or a flag computed before the loop)
         conds = set()
-        for gsw, lab, tgt in F.guards_dominating(f, after[0]):
-            info = F.switch_info(f, gsw)
-            if info and info[0] == "bool":
-                pos, os_ = F.bool_edge_polarity(f, gsw, lab)
-                for o in os_:
-                    if o.kind == "arg" and f.local_ty(o.arg) == "bool":
-                        conds.add(("single_result", pos))
-                    if o.kind == "binop" and o.extra == "Gt":
-                        conds.add(("multiple_rows", pos))
-                d = f.blocks[gsw]["term"]["discr"]
-                if d["k"] in ("copy", "move"):
-                    for oo in F.origins(f, d, depth=5, through_calls=False):
-                        if oo.kind == "binop" and oo.extra == "Gt":
-                            conds.add(("multiple_rows", pos))
-                        if oo.kind == "arg" and f.local_ty(oo.arg) == "bool":
-                            conds.add(("single_result", pos))
+        for a_, val in fa.binop_facts(after[0]):
+            if (a_["op"] == "Gt" and val) or (a_["op"] == "Le" and not val):
+                conds.add(("multiple_rows", True))
+        for flds, root, val in fa.place_facts(after[0]):
+            if not flds and 1 <= root <= f.arg_count and f.local_ty(root) == "bool":
+                conds.add(("single_result", val))
         if ("multiple_rows", True) in conds and ("single_result", False) in conds:
             R.ok("C17.once", "print|separator", "one separator, only under multiple_rows && !single_result", f.loc(after[0]))
         else:
@@ -191,7 +186,15 @@ def run(R):
                                                        "constructor sets true = %s" % (sorted(vals), good, ctor_true), [f.loc()])
     # pairing inside the closures
     n_pair = 0
-    for ch in P.children.get(f.key, []):
+    used_closures = []
+    seen_cl = set()
+    for c0 in f.calls:
+        for ck in (c0.func.get("closure_args") or []):
+            cf = P.fns.get(ck)
+            if cf is not None and ck not in seen_cl:
+                seen_cl.add(ck)
+                used_closures.append(cf)
+    for ch in used_closures:
         for c in ch.calls:
             if short(c.name).endswith("Index<I>>::index") and (c.func.get("res_targs") or [""])[0] == "sqlgrep::model::Value":
                 n_pair += 1
@@ -249,56 +252,73 @@ def run(R):
 
 
 def _json_arms(R):
+    """variant -> JSON kind table of Value::json_value, read from path facts (or-patterns, match-vs-combinator and loop-vs-map
+    spellings give the same table)"""
     P = R.prog
     f = R.need_fn("sqlgrep::model::Value::json_value")
-    sws = [sw for sw in sorted(f.reach) if (F.switch_info(f, sw) or (None,))[0] == "discr" and
-           (F.switch_info(f, sw)[1].get("adt") or "").endswith("model::Value")]
-    if not sws:
-        R.violation("C17.json", "json_value|no-match", "Value::json_value does not match on the value's variant", [f.loc()])
+    fa = PR.facts(f)
+    va = P.adts.get("sqlgrep::model::Value") or {"variants": []}
+    variants = [v["name"] for v in va["variants"]]
+
+    def variants_at(bb):
+        out = set()
+        for w in (fa.worlds_at(bb) or []):
+            got = None
+            for k, v in w:
+                a = fa.atoms.get(k, {})
+                if a.get("kind") == "discr" and (a.get("adt") or "").endswith("model::Value") and a["place"]["l"] == 1 and isinstance(v, str):
+                    if v.startswith("!"):
+                        got = set(variants) - set(v[1:].split(","))
+                    else:
+                        got = {v}
+            out |= (got if got is not None else set(variants))
+        return out
+    built = {v: set() for v in variants}
+    calls = {v: [] for v in variants}
+    casts = []
+    for i, st in f.stmts():
+        if st["rv"]["k"] == "aggr" and (st["rv"].get("adt") or "").endswith("serde_json::value::Value"):
+            for v in variants_at(i):
+                built[v].add(st["rv"].get("variant"))
+        if st["rv"]["k"] == "cast" and st["rv"]["ck"] in ("IntToFloat", "FloatToInt", "IntToInt"):
+            casts.append("%s->%s" % (st["rv"]["from"], st["rv"]["to"]))
+    for c in f.calls:
+        for v in variants_at(c.bb):
+            calls[v].append(short(c.name))
+            for ck in (c.func.get("closure_args") or []):
+                cf = P.fns.get(ck)
+                if cf is not None:
+                    calls[v] += [short(c2.name) for c2 in cf.calls]
+                    for i2, st2 in cf.stmts():
+                        if st2["rv"]["k"] == "aggr" and (st2["rv"].get("adt") or "").endswith("serde_json::value::Value"):
+                            built[v].add(st2["rv"].get("variant"))
+    if not fa.ok:
+        R.violation("C17.json", "json_value|unanalysable", "Value::json_value has too many paths to tabulate", [f.loc()])
         return
-    sw = sws[0]
-    kind, rv, targets = F.switch_info(f, sw)
-    names = {dv: n for dv, n in rv.get("variants", [])}
-    if f.blocks[targets["otherwise"]]["term"]["k"] != "unreachable":
-        listed = [names.get(l) for l in targets if l != "otherwise"]
-        missing = [n for n in names.values() if n not in listed]
-        if len(missing) != 1:
-            R.violation("C17.json", "json_value|wildcard", "Value::json_value has a wildcard arm covering %s" % missing, [f.loc(sw)])
-            return
     expect = {
-        "Null": (r"^$", "Null"),
-        "Int": (r"Number as core::convert::From<i64>>::from$", "Number"),
-        "Float": (r"Number::from_f64$", None),
-        "Bool": (r"^$", "Bool"),
-        "String": (r"String as core::clone::Clone>::clone$", "String"),
-        "Array": (r"Iterator::collect$|FromIterator", "Array"),
-        "Timestamp": (r"ToString>::to_string$", "String"),
-        "Interval": (r"ToString>::to_string$", "String"),
+        "Null": ({"Null"}, None),
+        "Int": ({"Number"}, r"Number as core::convert::From<i64>>::from$"),
+        "Float": ({"Number", "Null"}, r"Number::from_f64$"),
+        "Bool": ({"Bool"}, None),
+        "String": ({"String"}, r"String as core::clone::Clone>::clone$|ToOwned for str>::to_owned$|ToString>::to_string$"),
+        "Array": ({"Array"}, r"^sqlgrep::model::Value::json_value$"),
+        "Timestamp": ({"String"}, r"ToString>::to_string$"),
+        "Interval": ({"String"}, r"ToString>::to_string$"),
     }
-    for lab, tgt in targets.items():
-        vn = names.get(lab)
-        if lab == "otherwise":
-            listed = [names.get(l) for l in targets if l != "otherwise"]
-            rest = [n for n in names.values() if n not in listed]
-            vn = rest[0] if len(rest) == 1 and f.blocks[tgt]["term"]["k"] != "unreachable" else None
-        if vn is None:
+    for v in variants:
+        allowed, need = expect.get(v, (None, None))
+        if allowed is None:
+            R.violation("C17.json", "json_value|" + v, "value variant %s has no reviewed JSON rendering" % v, [f.loc()])
             continue
-        region = [b for b in f.reach if f.dominates(tgt, b)]
-        calls = [short(c.name) for c in f.calls if c.bb in region]
-        aggr = [s["rv"].get("variant") for i, s in f.stmts() if i in region and s["rv"]["k"] == "aggr" and
-                (s["rv"].get("adt") or "").endswith("serde_json::value::Value")]
-        casts = [s["rv"]["ck"] for i, s in f.stmts() if i in region and s["rv"]["k"] == "cast" and s["rv"]["ck"] in ("IntToFloat", "FloatToInt", "IntToInt")]
-        rx, want_aggr = expect.get(vn, (None, None))
-        ok = rx is not None and (any(re.search(rx, c) for c in calls) or (rx == "^$" and not calls)) and not casts
-        if ok and want_aggr and want_aggr not in aggr:
+        must = {"Number"} if v == "Float" else allowed
+        ok = bool(built[v]) and built[v] <= allowed and must <= built[v] and not casts and \
+            (need is None or any(re.search(need, n) for n in calls[v]))
+        if v == "Int" and any(re.search(r"as_f64|from_f64|Number as core::convert::From<(u|i)(8|16|32)>>", n) for n in calls[v]):
             ok = False
-        if vn == "Array":
-            ch = [short(c.name) for x in P.children.get(f.key, []) for c in x.calls]
-            ok = ok and "sqlgrep::model::Value::json_value" in ch
         if ok:
-            R.ok("C17.json", "json_value|" + vn, "%s -> %s" % (vn, want_aggr or "Number(from_f64) / null"), f.loc(tgt))
+            R.ok("C17.json", "json_value|" + v, "%s -> %s" % (v, "/".join(sorted(built[v]))), f.loc())
         else:
-            R.violation("C17.json", "json_value|" + vn,
-                        "Value::%s is not rendered as the JSON value of the same kind (callees %s, built %s, casts %s)" % (vn, calls, aggr, casts),
-                        [f.loc(tgt)])
+            R.violation("C17.json", "json_value|" + v,
+                        "Value::%s is not rendered as the JSON value of the same kind (built %s, expected %s; callees %s, casts %s)"
+                        % (v, sorted(built[v]), sorted(allowed), sorted(set(calls[v]))[:6], casts), [f.loc()])
     R.floor("C17.json", 8)
